@@ -1,5 +1,6 @@
 import DigModel.Proofs.Lookup
 import DigModel.Api
+import DigModel.Proofs.ReachApi
 /-
   C08 — Scope visibility: down the tree only, nearest wins, creation order irrelevant.
 
@@ -11,6 +12,10 @@ import DigModel.Api
     child's path exactly like what is registered afterwards (the look-ups read the ancestors' tables at
     resolution time, not a copy taken at creation time);
   * `C08_all_providers_on_path`: the providers seen by the pre-call check are those of the scopes on the path.
+  * `C08_reachable_providers_visible` (with `C03_only`): a constructor that an Invoke may run *directly* for a
+    single key is listed in the providers of a scope on the path from the requesting scope to the root, and no
+    scope nearer on that path provides the key (nearest wins) — constructors of siblings, descendants and of
+    farther ancestors that are shadowed are not reachable for that key;
   Export (registration in the root with the origin scope kept for the constructor's own dependencies) and the
   graph-order half of "creation order is irrelevant" are covered by the correspondence check and the C16 twins.
 -/
@@ -34,6 +39,38 @@ theorem C08_all_providers_on_path (st : St) (c : Nat) (k : Key) (n : Nat) (h : n
     ∃ s ∈ st.ancestors c, n ∈ agetL (st.scope s).providers k := by
   simp only [St.allProviders, List.mem_flatMap] at h
   exact h
+
+theorem nearestProv_spec (st : St) (k : Key) : ∀ (anc : List Nat) (pc : Nat) (ns : List Nat),
+    nearestProv st k anc = some (pc, ns) →
+    ∃ pre post, anc = pre ++ pc :: post ∧ ns = agetL (st.scope pc).providers k ∧ ns ≠ [] ∧
+      ∀ s ∈ pre, agetL (st.scope s).providers k = [] := by
+  intro anc
+  induction anc with
+  | nil => intro pc ns h; simp [nearestProv] at h
+  | cons s rest ih =>
+    intro pc ns h
+    simp only [nearestProv] at h
+    cases hp : agetL (st.scope s).providers k with
+    | nil =>
+      rw [hp] at h
+      obtain ⟨pre, post, e, h1, h2, h3⟩ := ih pc ns h
+      refine ⟨s :: pre, post, by rw [e]; rfl, h1, h2, ?_⟩
+      intro s' hs'
+      rcases List.mem_cons.mp hs' with rfl | hm
+      · exact hp
+      · exact h3 s' hm
+    | cons n more =>
+      rw [hp] at h
+      simp only [Option.some.injEq, Prod.mk.injEq] at h
+      obtain ⟨rfl, rfl⟩ := h
+      exact ⟨[], rest, rfl, hp.symm, by simp, by simp⟩
+
+theorem C08_reachable_providers_visible (st : St) (c : Nat) (k : Key) (pc : Nat) (ns : List Nat) (n : Nat)
+    (hn : nearestProv st k (st.ancestors c) = some (pc, ns)) (hm : n ∈ ns) :
+    pc ∈ st.ancestors c ∧ n ∈ agetL (st.scope pc).providers k ∧
+    ∃ pre post, st.ancestors c = pre ++ pc :: post ∧ ∀ s ∈ pre, agetL (st.scope s).providers k = [] := by
+  obtain ⟨pre, post, e, h1, _, h3⟩ := nearestProv_spec st k _ pc ns hn
+  exact ⟨by rw [e]; simp, by rw [← h1]; exact hm, pre, post, e, h3⟩
 
 /-- parents have smaller indexes than their children (scopes are only ever appended) -/
 def WFTree (scopes : List ScopeSt) : Prop :=
@@ -120,6 +157,8 @@ theorem C08_tree_wf (st : St) (parent : Nat) (hp : parent < st.scopes.length) (h
       rw [this] at hj; simp at hj
 
 #print axioms C08_path_only
+#print axioms nearestProv_spec
+#print axioms C08_reachable_providers_visible
 #print axioms C08_all_providers_on_path
 #print axioms C08_child_path
 #print axioms C08_tree_wf
